@@ -490,8 +490,8 @@ pub fn encode(data: &[u8], filter: &StreamFilter) -> Result<Vec<u8>> {
     match *filter {
         StreamFilter::ASCIIHexDecode => Ok(encode_hex(data)),
         StreamFilter::ASCII85Decode => Ok(encode_85(data)),
-        StreamFilter::LZWDecode(ref params) => lzw_encode(data, params),
-        StreamFilter::FlateDecode (ref _params) => Ok(flate_encode(data)),
+        StreamFilter::LZWDecode(ref params) if params.predictor == 1 => lzw_encode(data, params),
+        StreamFilter::FlateDecode(ref params) if params.predictor == 1 => Ok(flate_encode(data)),
         _ => unimplemented!(),
     }
 }
